@@ -142,9 +142,14 @@ pub fn yield_point(site: &'static str) {
         if site == "c.add_pure_comment" {
             c.hit_pure = true;
         }
-        if c.crash_at == Some(c.steps) {
-            c.crash_fired = true;
-            return Do::Crash;
+        // a planted crash stands for a panic somewhere in the pass. The yield points in front of lock / once /
+        // atomic operations (instrumented builds only, sites `sync.*`) often sit inside a critical section of
+        // the code under test, where nothing can really panic: a crash due there fires at the next ordinary site
+        if let Some(k) = c.crash_at {
+            if !c.crash_fired && c.steps >= k && !site.starts_with("sync.") {
+                c.crash_fired = true;
+                return Do::Crash;
+            }
         }
         if c.steps > c.budget {
             c.budget_fired = true;
